@@ -1252,12 +1252,16 @@ class RTCSctpTransport(AsyncIOEventEmitter):
 
         # handle gap blocks
         loss = False
-        if chunk.gaps:
+        if chunk.gaps and self._sent_queue:
+            # only the outstanding TSNs matter, do not walk the gap blocks
+            # themselves: their extent is controlled by the peer
             seen = set()
-            for gap in chunk.gaps:
-                for pos in range(gap[0], gap[1] + 1):
-                    highest_seen_tsn = (chunk.cumulative_tsn + pos) % SCTP_TSN_MODULO
-                    seen.add(highest_seen_tsn)
+            highest_seen_tsn = chunk.cumulative_tsn
+            for schunk in self._sent_queue:
+                pos = (schunk.tsn - chunk.cumulative_tsn) % SCTP_TSN_MODULO
+                if any(gap[0] <= pos <= gap[1] for gap in chunk.gaps):
+                    seen.add(schunk.tsn)
+                    highest_seen_tsn = schunk.tsn
 
             # determined Highest TSN Newly Acked (HTNA)
             highest_newly_acked = chunk.cumulative_tsn
